@@ -6,6 +6,7 @@ import Driver.Proto
 import Shp.Spec.Gen
 import Shp.Spec.Expected
 import Shp.Model.Pairs
+import Shp.Model.Geo
 open Shp Shp.Proto
 
 def toFloat (f : F64) : Float := Float.ofBits f.bits
@@ -72,6 +73,50 @@ def otherShape (base : String) (q : Nat) : Option Shape :=
   let v := f64OfNat q
   if base = "Polyline" then some (.point .xy { Pt.default with x := v, y := f64OfNat 0 })
   else Shape.mkPolyline .xy [{ Pt.default with x := v, y := f64OfNat 0 }, { Pt.default with x := v, y := f64OfNat 1 }]
+
+def showCs (l : List Pt) : String :=
+  toString l.length ++ String.join (l.map fun p => " " ++ showF64 p.x ++ " " ++ showF64 p.y)
+
+def showGPoly (p : GPoly) : String :=
+  showCs p.ext ++ " " ++ toString p.ints.length ++ String.join (p.ints.map fun i => " " ++ showCs i)
+
+def showGeom : Geom → String
+  | .point p => "gpoint " ++ showF64 p.x ++ " " ++ showF64 p.y
+  | .line a b => "gline " ++ showF64 a.x ++ " " ++ showF64 a.y ++ " " ++ showF64 b.x ++ " " ++ showF64 b.y
+  | .lineString l => "gls " ++ showCs l
+  | .multiPoint l => "gmpoint " ++ showCs l
+  | .multiLineString ls => "gmls " ++ toString ls.length ++ String.join (ls.map fun l => " " ++ showCs l)
+  | .polygon p => "gpoly " ++ showGPoly p
+  | .multiPolygon ps => "gmpoly " ++ toString ps.length ++ String.join (ps.map fun p => " " ++ showGPoly p)
+  | .collection => "gcoll"
+  | .rect => "grect"
+  | .triangle => "gtri"
+
+def cs : P (List Pt) := do
+  let n ← nat
+  many n (do let x ← f64; let y ← f64; pure { Pt.default with x := x, y := y })
+
+def gpoly : P GPoly := do
+  let e ← cs
+  let k ← nat
+  let ints ← many k cs
+  pure (GPoly.new e ints)
+
+def geom : P Geom := do
+  match (← tok) with
+  | "gpoint" => do let x ← f64; let y ← f64; pure (.point { Pt.default with x := x, y := y })
+  | "gline" => do
+    let x ← f64; let y ← f64; let x2 ← f64; let y2 ← f64
+    pure (.line { Pt.default with x := x, y := y } { Pt.default with x := x2, y := y2 })
+  | "gls" => do pure (.lineString (← cs))
+  | "gmpoint" => do pure (.multiPoint (← cs))
+  | "gmls" => do let n ← nat; pure (.multiLineString (← many n cs))
+  | "gpoly" => do pure (.polygon (← gpoly))
+  | "gmpoly" => do let n ← nat; pure (.multiPolygon (← many n gpoly))
+  | "gcoll" => pure .collection
+  | "grect" => pure .rect
+  | "gtri" => pure .triangle
+  | _ => failP
 
 def runCase (verb : String) : P String := do
   match verb with
@@ -186,6 +231,32 @@ def runCase (verb : String) : P String := do
         | some f => let (st', r) := st.step o tg (f st); (st', showRes r :: outs)
         | none => (st, "bad-op" :: outs)) (st, [])
       pure ("open ok ; " ++ String.intercalate " ; " outs.reverse)
+  | "geo" => do
+    match (← tok) with
+    | "s2g" => do
+      match (← ctor o) with
+      | none => pure "panic"
+      | some s => match shapeToGeom s with
+        | .ok g => pure (showGeom g)
+        | .err => pure "err"
+        | .panic => pure "panic"
+    | "g2s" => do
+      let g ← geom
+      match geomToShape o g with
+      | .ok s => pure (showShape s)
+      | .err => pure "err"
+      | .panic => pure "panic"
+    | "dims" => do
+      let d ← dim
+      let ps ← pts d
+      match ps with
+      | p :: _ =>
+        let n := dimCount d p
+        let vals := (List.range n).map fun i => nthOrPanic d p i
+        if vals.any Option.isNone then pure "panic"
+        else pure (s!"dim {n}" ++ String.join (vals.map fun v => " " ++ showF64 (v.getD F64.zero)))
+      | [] => failP
+    | _ => failP
   | "dbfhist" => do
     let base ← tok
     let n ← nat
